@@ -44,6 +44,8 @@ var (
 	fRuns     = flag.Int("verif.runs", 0, "override the number of runs")
 	fStates   = flag.String("verif.states", "", "file to write the set of abstract states to (worker)")
 	fVerbose  = flag.Bool("verif.v", false, "verbose")
+	fClass    = flag.String("verif.class", "", "violation class (minimise)")
+	fBaseSeed = flag.Uint64("verif.baseseed", 0, "base seed recorded in the replay file (minimise)")
 )
 
 // plan: which scenarios a property's check runs and how many runs per tier.
@@ -696,9 +698,15 @@ func checkMain(t *testing.T) {
 				crashes = append(crashes, ci)
 				wfMu.Unlock()
 				restarts++
-				if restarts > 20 {
+				wfMu.Lock()
+				total := len(crashes)
+				wfMu.Unlock()
+				if total >= 4 {
+					return // enough evidence: do not spend the budget on dying again and again
+				}
+				if restarts > 5 {
 					wfMu.Lock()
-					workerFailed = append(workerFailed, fmt.Sprintf("worker %d: died more than 20 times, last: %v", w, err))
+					workerFailed = append(workerFailed, fmt.Sprintf("worker %d: died more than 5 times, last: %v", w, err))
 					wfMu.Unlock()
 					return
 				}
@@ -802,36 +810,65 @@ func checkMain(t *testing.T) {
 			}
 			continue
 		}
-		first := Execute(t, spec)
-		if !hasClass(prop, class, first) {
-			fmt.Printf("NONDETERMINISM: violation %s of run %d (seed %d) did not recur when re-executed\n", class, wl.Idx, wl.Seed)
+		// Re-execution and minimisation run in a child process under a watchdog: a run that
+		// spins inside the library must not take the orchestrator down with it.
+		name := fmt.Sprintf("%s-%s-%d-%d.json", prop, sanitize(class), *fSeed, wl.Idx)
+		path := filepath.Join(outDir, "replays", name)
+		mcmd := exec.Command(selfExe(), "-test.run", "^TestVerif$", "-test.timeout", "1h", "-verif.mode", "minimise", "-verif.prop", prop, "-verif.class", class,
+			"-verif.scenario", wl.Scenario, "-verif.seed", strconv.FormatUint(wl.Seed, 10), "-verif.baseseed", strconv.FormatUint(*fSeed, 10), "-verif.from", strconv.Itoa(wl.Idx), "-verif.replay", path)
+		mcmd.Env = append(os.Environ(), "GOTRACEBACK=all")
+		var mbuf strings.Builder
+		mcmd.Stdout, mcmd.Stderr = &mbuf, &mbuf
+		mcmd.Start()
+		mdone := make(chan error, 1)
+		go func() { mdone <- mcmd.Wait() }()
+		var merr error
+		mhung := false
+		select {
+		case merr = <-mdone:
+		case <-time.After(minimiseBudget + 60*time.Second):
+			mhung = true
+			mcmd.Process.Signal(syscall.SIGQUIT)
+			select {
+			case <-mdone:
+			case <-time.After(5 * time.Second):
+				mcmd.Process.Kill()
+				<-mdone
+			}
+		}
+		var mr minimiseResult
+		for _, l := range strings.Split(mbuf.String(), "\n") {
+			if strings.HasPrefix(l, "MINIMISED ") {
+				json.Unmarshal([]byte(strings.TrimPrefix(l, "MINIMISED ")), &mr)
+			}
+		}
+		if (mhung || merr != nil) && mr.Err == "" {
+			// a shrunken candidate killed or wedged the child: fall back to the unminimised run
+			// (the seed alone replays it exactly)
+			det := ""
+			for _, v := range wl.Viol {
+				if v.Class == class {
+					det = v.Detail
+				}
+			}
+			frf := replayFile{Property: prop, Class: class, Detail: det, Scenario: wl.Scenario, Seed: wl.Seed, BaseSeed: *fSeed, RunIndex: wl.Idx, Hash: wl.Hash, Config: wl.Config, NDec: wl.NDec, OrigNDec: wl.NDec}
+			js, _ := json.MarshalIndent(&frf, "", " ")
+			os.WriteFile(path, js, 0o644)
+			mr = minimiseResult{OK: true, Detail: det, Orig: wl.NDec, Min: wl.NDec}
+			mhung, merr = false, nil
+			fmt.Printf("note: minimisation of %s was abandoned (a shrunken candidate did not terminate); reporting the unminimised run\n", class)
+		}
+		if mhung || merr != nil || !mr.OK {
+			if mr.Err == "not-reproduced" {
+				fmt.Printf("NONDETERMINISM: violation %s of run %d (seed %d) did not recur when re-executed\n", class, wl.Idx, wl.Seed)
+			} else {
+				fmt.Printf("CHECK-ERROR: minimisation of %s (run %d seed %d) failed: hung=%v err=%v %s\n%s\n", class, wl.Idx, wl.Seed, mhung, merr, mr.Err, tailStr(firstFatal(mbuf.String()), 1500))
+			}
 			exit = 2
 			continue
 		}
-		spec.Decisions = cloneDec(first.Decisions)
-		mspec, mres, tries := minimise(t, spec, prop, class, minimiseBudget)
-		if mres == nil {
-			mspec, mres = spec, first
-		}
-		mspec.Trace = true
-		tr := Execute(t, mspec)
-		detail := ""
-		for _, v := range ownViolations(prop, tr) {
-			if v.Class == class {
-				detail = v.Detail
-				break
-			}
-		}
-		tail := tr.Trace
-		if len(tail) > 400 {
-			tail = tail[len(tail)-400:]
-		}
-		rf := replayFile{Property: prop, Class: class, Detail: detail, Scenario: mspec.Scenario, Seed: mspec.Seed, BaseSeed: *fSeed, RunIndex: wl.Idx,
-			Decisions: mspec.Decisions, NDec: countDec(mspec.Decisions), OrigNDec: countDec(first.Decisions), Hash: tr.Hash, Config: tr.Config, Trace: tail}
-		name := fmt.Sprintf("%s-%s-%d-%d.json", prop, sanitize(class), *fSeed, wl.Idx)
-		path := filepath.Join(outDir, "replays", name)
-		js, _ := json.MarshalIndent(&rf, "", " ")
-		os.WriteFile(path, js, 0o644)
+		detail, tries := mr.Detail, mr.Tries
+		rf := replayFile{OrigNDec: mr.Orig, NDec: mr.Min}
 		// fresh process
 		cmd := exec.Command(selfExe(), "-test.run", "^TestVerif$", "-verif.mode", "replay", "-verif.replay", path)
 		outb, err := cmd.CombinedOutput()
@@ -961,7 +998,7 @@ var minimiseBudget = func() time.Duration {
 	return 20 * time.Second
 }()
 
-const hangAfter = 90 * time.Second
+const hangAfter = 15 * time.Second
 
 type crashInfo struct {
 	Idx    int
@@ -1069,4 +1106,54 @@ func crashDetail(ci crashInfo) string {
 		line = line[:i]
 	}
 	return fmt.Sprintf("%s: %s; library frames: %s", what, strings.TrimSpace(line), strings.Join(libFrames(ff), " <- "))
+}
+
+// ---------------------------------------------------------------------------------------
+// minimise (child process of check)
+
+type minimiseResult struct {
+	OK     bool   `json:"ok"`
+	Err    string `json:"err,omitempty"`
+	Detail string `json:"detail"`
+	Orig   int    `json:"orig"`
+	Min    int    `json:"min"`
+	Tries  int    `json:"tries"`
+}
+
+func minimiseMain(t *testing.T) {
+	prop, class := *fProp, *fClass
+	emit := func(r minimiseResult) {
+		js, _ := json.Marshal(&r)
+		fmt.Printf("MINIMISED %s\n", js)
+	}
+	spec := RunSpec{Scenario: *fScenario, Prop: prop, Seed: *fSeed}
+	first := Execute(t, spec)
+	if !hasClass(prop, class, first) {
+		emit(minimiseResult{Err: "not-reproduced"})
+		return
+	}
+	spec.Decisions = cloneDec(first.Decisions)
+	mspec, mres, tries := minimise(t, spec, prop, class, minimiseBudget)
+	if mres == nil {
+		mspec, mres = spec, first
+	}
+	mspec.Trace = true
+	tr := Execute(t, mspec)
+	detail := ""
+	for _, v := range ownViolations(prop, tr) {
+		if v.Class == class {
+			detail = v.Detail
+			break
+		}
+	}
+	tail := tr.Trace
+	if len(tail) > 400 {
+		tail = tail[len(tail)-400:]
+	}
+	rf := replayFile{Property: prop, Class: class, Detail: detail, Scenario: mspec.Scenario, Seed: mspec.Seed, BaseSeed: *fBaseSeed, RunIndex: *fFrom,
+		Decisions: mspec.Decisions, NDec: countDec(mspec.Decisions), OrigNDec: countDec(first.Decisions), Hash: tr.Hash, Config: tr.Config, Trace: tail}
+	path := *fReplay
+	js, _ := json.MarshalIndent(&rf, "", " ")
+	os.WriteFile(path, js, 0o644)
+	emit(minimiseResult{OK: true, Detail: detail, Orig: rf.OrigNDec, Min: rf.NDec, Tries: tries})
 }
